@@ -5,19 +5,20 @@ CHECK = {
         "timeoutThreshold > 0 (bb_worker passes 100ms; with 0 the re-arm loop would spin on a zero timer), maximumSuspension >= 0, timeout >= 0",
         "all durations are whole ticks (tick = 1ns, 1ms or 1s), d <= 40, m <= 60, th <= 12 ticks, at most 3 concurrent readers with at most 4 suspensions each",
         "Resume() is only called by whoever called Suspend() (the clock documents a panic otherwise)",
-        "base clock is bb-storage SystemClock on testing/synctest fake time: time does not advance while a goroutine is runnable",
+        "base clock is bb-storage SystemClock on testing/synctest fake time (behind a pass-through wrapper that only counts NewTimer calls and stops handing out live timers after 5000, so that a spinning re-arm loop is reported instead of hanging): time does not advance while a goroutine is runnable, so scheduling latency between a timer firing and the clock handling it is not explored",
         "events at the same instant as a base-timer expiry may be processed in either order; the oracle accepts both",
+        "LocalBuildExecutor is driven with fakes: empty build directory, CAS holding only the command, a runner that answers a finished context like a gRPC client stub (status.FromContextError)",
         "buffers handed out by SuspendingBlobAccess.Get are finished exactly once (read to the end / closed / discarded), as the Buffer contract demands",
     ],
     "tests": [
         T("susclock", "TestC11SuspendableClockTimeline",
-          {"checks": 40000, "shards": 2, "timeout": 300},
+          {"checks": 30000, "shards": 2, "timeout": 300},
           {"checks": 250000, "shards": 16, "timeout": 1200}),
         T("susclock", "TestC11SuspendingDecorators",
-          {"checks": 20000, "shards": 2, "timeout": 300},
+          {"checks": 12000, "shards": 2, "timeout": 300},
           {"checks": 80000, "shards": 16, "timeout": 1200}),
         T("susclock", "TestC11ExecutorTimeout",
-          {"checks": 10000, "shards": 2, "timeout": 300},
+          {"checks": 6000, "shards": 2, "timeout": 300},
           {"checks": 60000, "shards": 16, "timeout": 1200}),
     ],
 }
